@@ -4,6 +4,8 @@
 #include <cstring>
 #include <memory>
 #include <set>
+#include <system_error>
+#include <vector>
 #include <string>
 
 #include "../engine/explore.h"
@@ -67,7 +69,7 @@ __attribute__((noinline)) void clobber() {
     asm volatile("" ::: "memory");
 }
 
-enum Kind { K_FN0, K_FN2, K_SMALL0, K_SMALL2, K_LARGE0, K_LAMBDA, K_RUNNABLE, K_CTOR_SMALL, K_SELFQ, K_DETACH };
+enum Kind { K_FN0, K_FN2, K_SMALL0, K_SMALL2, K_LARGE0, K_LAMBDA, K_RUNNABLE, K_CTOR_SMALL, K_SELFQ, K_DETACH, K_STRCAP };
 
 __attribute__((noinline)) void launch(tulz::Thread &t, Kind k, int &a, std::string &s) {
     switch (k) {
@@ -88,6 +90,15 @@ __attribute__((noinline)) void launch(tulz::Thread &t, Kind k, int &a, std::stri
         break;
     }
     case K_DETACH: { Small c; c.id = 41; t.start(c); break; }
+    case K_STRCAP: {     // a closure whose moved-from state differs from a copy; the creation of the thread may fail once (EAGAIN), the caller then starts it again with its own, intact closure
+        std::string msg = "a captured string that does not fit the small-string buffer"; std::vector<int> v{1, 2, 3};
+        auto c = [msg, v] {
+            if (msg != "a captured string that does not fit the small-string buffer" || v.size() != 3) vs_fail("the callable ran on a moved-from copy of the closure (captured string has %zu characters, vector %zu elements)", msg.size(), v.size());
+            body(41, nullptr, 41, "");
+        };
+        try { t.start(c); } catch (const std::system_error &) { vs_event(EV_OBS, 9, 0); t.start(c); }
+        break;
+    }
     case K_CTOR_SMALL: break;
     }
 }
@@ -184,10 +195,12 @@ bool provider(const std::string &prop, const std::string &tier, const std::strin
         {K_SMALL0, "small-closure-0args", "16-byte functor with a liveness canary"}, {K_SMALL2, "small-closure-2args", "16-byte functor with (int&, std::string&) lvalue arguments"},
         {K_LARGE0, "large-closure-0args", "functor with 256 captured bytes"}, {K_LAMBDA, "lambda-closure", "lambda capturing a canary object by value"},
         {K_RUNNABLE, "runnable", "start(Runnable*)"}, {K_CTOR_SMALL, "ctor-small-closure", "Thread(callable) constructor"},
-        {K_SELFQ, "self-query", "a lambda that asks its own Thread object isFinished()/isRunning() on entry"}, {K_DETACH, "detached", "16-byte functor; the starter detaches the std::thread instead of joining and keeps observing isFinished()"}};
+        {K_SELFQ, "self-query", "a lambda that asks its own Thread object isFinished()/isRunning() on entry"}, {K_DETACH, "detached", "16-byte functor; the starter detaches the std::thread instead of joining and keeps observing isFinished()"},
+        {K_STRCAP, "string-closure+nothread", "a closure capturing a std::string and a std::vector by value; the creation of the thread may fail once with EAGAIN (costs 1), start() then throws and the starter calls it again"}};
     for (auto &k : kinds) {
         VProgram p; p.name = k.name; p.describe = std::string("Thread::start with ") + k.what; p.bound = 4; p.unlock_points = true;
         Kind kk = k.k; p.body = [kk] { run(kk); };
+        if (kk == K_STRCAP) p.create_faults = 1;
         suite.programs.push_back(std::move(p));
     }
     return true;
